@@ -277,6 +277,10 @@ class Scenario:
             return "ack"
         if k == "pub":
             must, may = M.recipients(d["t"], d["dm"], d["dh"])
+            if cs.closed_by_us is not None:
+                # the publisher closed its socket with this frame still queued: the manager may discover the closed
+                # connection on the write side (an ACK or logger copy to it) and drop it before reading the frame
+                must, may = [], must + may
             p = self.pubs[d["id"]]
             p["must"] = [self.by_addr[a].label for a in must]
             p["may"] = [self.by_addr[a].label for a in may]
